@@ -36,7 +36,9 @@ type Op struct {
 	Security      [][]string `json:"security"` // per requirement: sorted scheme keys, scopes appended as "key#scope"
 	Endpoint      string     `json:"endpoint,omitempty"`
 	File          bool       `json:"file,omitempty"`
-	Basic         bool       `json:"basic,omitempty"` // server side: the decoder reads basic-auth credentials
+	Service       string     `json:"service,omitempty"`
+	FileOf        string     `json:"file_of,omitempty"` // "service#index" of the file server
+	Basic         bool       `json:"basic,omitempty"`   // server side: the decoder reads basic-auth credentials
 	BasicRequired bool       `json:"basic_required,omitempty"`
 }
 
@@ -269,10 +271,11 @@ func serverOps(sd *httpcodegen.ServiceData) []Op {
 		basicReq := basic && ed.BasicScheme.UsernameRequired
 		for _, rt := range ed.Routes {
 			ops = append(ops, Op{Method: rt.Verb, Path: normPath(rt.Path), RawPath: rt.Path, Params: ps, HasBody: hasBody,
-				Statuses: sts, Security: sec, Endpoint: sd.Service.Name + "." + ed.Method.Name, Basic: basic, BasicRequired: basicReq})
+				Statuses: sts, Security: sec, Endpoint: sd.Service.Name + "." + ed.Method.Name, Service: sd.Service.Name, Basic: basic, BasicRequired: basicReq})
 		}
 	}
-	for _, fs := range sd.FileServers {
+	for fi, fs := range sd.FileServers {
+		fof := fmt.Sprintf("%s#%d", sd.Service.Name, fi)
 		for _, p := range fs.RequestPaths {
 			if fs.IsDir {
 				// file_server.go.tpl: two mounts, the directory itself and everything below
@@ -280,11 +283,11 @@ func serverOps(sd *httpcodegen.ServiceData) []Op {
 				if base != "/" {
 					base += "/"
 				}
-				ops = append(ops, Op{Method: "GET", Path: base, RawPath: base, File: true, Statuses: []int{200}},
+				ops = append(ops, Op{Method: "GET", Path: base, RawPath: base, File: true, Statuses: []int{200}, Service: sd.Service.Name, FileOf: fof},
 					Op{Method: "GET", Path: base + "{" + fs.PathParam + "}", RawPath: base + "{*" + fs.PathParam + "}", File: true,
 						Params: []Param{{fs.PathParam, "path", true}}, Statuses: []int{200, 404}})
 			} else {
-				ops = append(ops, Op{Method: "GET", Path: p, RawPath: p, File: true, Statuses: []int{200}})
+				ops = append(ops, Op{Method: "GET", Path: p, RawPath: p, File: true, Statuses: []int{200}, Service: sd.Service.Name, FileOf: fof})
 			}
 		}
 	}
